@@ -21,7 +21,7 @@ theorem wipe_call_bare (inp : Nat → Value) (N : Nat) (env : List (String × Va
         { env := env, log := lg ++ wipeEvents (.ext "Path" [.str "shm", .str ""]) (.ext "Path" [.str "", .str ""]) false,
           pos := p + 9 } := by
   simp (config := { maxSteps := 8000000 }) [rs_eval, rs_code, okUnit, EmbedShm.sizes, chkInt, HEADER_SIZE, RECORD_SIZE,
-    Nat.add_assoc, h0, h1, h2, h3, h4, h5, h6, h7, h8, wipeEvents, evFs]
+    Nat.add_assoc, h0, h1, h2, h3, h4, h5, h6, h7, h8, wipeEvents, evFs, callDeclRef]
 
 set_option maxRecDepth 8000 in
 set_option maxHeartbeats 8000000 in
@@ -40,7 +40,7 @@ theorem wipe_call_dir (inp : Nat → Value) (parent : String) (hp : parent ≠ "
         { env := env, log := lg ++ wipeEvents (.ext "Path" [.str "shm", .str parent]) (.ext "Path" [.str parent, .str ""]) true,
           pos := p + 10 } := by
   simp (config := { maxSteps := 8000000 }) [rs_eval, rs_code, okUnit, EmbedShm.sizes, chkInt, HEADER_SIZE, RECORD_SIZE,
-    Nat.add_assoc, hd, h0, h1, h2, h3, h4, h5, h6, h7, h8, wipeEvents, evFs, hp]
+    Nat.add_assoc, hd, h0, h1, h2, h3, h4, h5, h6, h7, h8, wipeEvents, evFs, hp, callDeclRef]
 
 /-- `wipe`, with or without a parent directory, the answers given as the list `wipeAnswers` -/
 theorem wipe_call (inp : Nat → Value) (parent : String) (hasParent : Bool) (hp : hasParent = (parent != ""))
